@@ -152,7 +152,20 @@ pub fn run_fam(cfg: &RunCfg, blocking: bool) -> Report {
 			rep.count("raw_ops", out.stats.raw_ops);
 			rep.count("failed_raw_tries", out.stats.failed_tries);
 			if let Some(a) = &out.aborted {
-				rep.inconclusive.push(format!("shape {i} aborted: {:?} {}", a, out.deadlock_witness));
+				match a {
+					// already recorded by the World as a C01 self_wait violation
+					Abort::SelfWait => {}
+					Abort::Deadlock if blocking => rep.violations.push(VRec {
+						prop: "C04".into(),
+						rule: "blocking_acquisition_did_not_complete".into(),
+						detail: format!("the single thread blocked for good: {}", out.deadlock_witness),
+						signature: "C04:blocking_acquisition_did_not_complete".into(),
+						case: format!("{} {}", arena_desc(arena_spec), target_desc(target)),
+						index: i,
+						log: out.log.iter().rev().take(60).rev().cloned().collect(),
+					}),
+					_ => rep.inconclusive.push(format!("shape {i} aborted: {:?} {}", a, out.deadlock_witness)),
+				}
 			}
 			if let Some(m) = &out.unwound {
 				rep.violations.push(VRec {
